@@ -209,7 +209,7 @@ func (r *scenarioRun) phase(name string, limit int64) bool {
 		msg := fmt.Sprint(pv)
 		key := "C09|crash|" + sanitize(msg)
 		if strings.Contains(msg, "finished WGs from more than one dispatcher") {
-			key = "C09|crash|completion-batch-spans-dispatchers"
+			key = "C09|crash|mixed-completion-message-from-emulation-cu"
 		}
 		r.viol(key, fmt.Sprintf("command processor panicked in phase %s at cycle %d: %v", name, e.nowCycle(), pv),
 			map[string]any{"phase": name, "panic": msg})
